@@ -77,9 +77,10 @@ ChangeAlg(pre, q, dest) ==
     ELSE LET avail == SumIn(pre) - SumOut(pre)
              sz == EstSizes(pre)
              extra == IF dest.kind = "new" THEN OutSize([slen |-> dest.slen]) + VarIntGrowth(Len(pre.outs)) ELSE 0
-             \* a data-carrier change script would be charged at the data rate for its script bytes
-             extraData == IF dest.kind = "new" /\ dest.data THEN dest.slen ELSE 0
-             fees == FeeOf(sz.std + extra - extraData, q.ss, q.sb) + FeeOf(sz.data + extraData, q.ds, q.db)
+             \* every byte of a new change output is charged at the standard rate, also when the
+             \* destination is a data-carrier script (outside C10's quantifier "any non-data locking
+             \* script"; with data rate > standard rate such a change underpays - kept as the code has it)
+             fees == FeeOf(sz.std + extra, q.ss, q.sb) + FeeOf(sz.data, q.ds, q.db)
          IN IF avail <= fees \/ avail - fees <= Dust THEN [ok |-> TRUE, post |-> pre]
             ELSE [ok |-> TRUE, post |-> WithChange(pre, dest, avail - fees)]
 =================================================================================
